@@ -232,6 +232,10 @@ func runC05(r *Run, replay *Case) {
 	defer flushPages(r)
 	cases := c05Cases()
 	if replay != nil {
+		if replay.Input["stream"] == "instances" {
+			c05InstanceIndependence(r)
+			return
+		}
 		for _, cs := range cases {
 			if cs.desc == replay.Input["desc"] {
 				r.Add(c05Eval(cs))
@@ -245,6 +249,7 @@ func runC05(r *Run, replay *Case) {
 	for _, cs := range cases {
 		r.Add(c05Eval(cs))
 	}
+	c05InstanceIndependence(r)
 	// the same component several times with DIFFERENT props, the component forwarding them to a nested component: every instance receives
 	// exactly its own props at every level (how the instances are written x how the props are forwarded x depth)
 	for _, how := range []string{"separate", "loop", "loop-tag", "separate-tag", "loop-samename", "loop-tag-samename"} {
